@@ -21,7 +21,7 @@ from simtz import replsim as rs
 from simtz.runner import rng_for
 
 ID = 'C15'
-QUICK_RUNS = 2400
+QUICK_RUNS = 5000
 QUICK_BUDGET_S = 90
 CHUNK = 25
 CHUNK_TIMEOUT_S = 600
